@@ -391,7 +391,7 @@ class Event:
 
 
 class State:
-    __slots__ = ("env", "pos", "under", "events", "ctrl", "loops", "vers", "retval", "sc")
+    __slots__ = ("env", "pos", "under", "events", "ctrl", "loops", "vers", "retval", "sc", "breakval")
 
     def __init__(self):
         self.env = {}
@@ -403,6 +403,7 @@ class State:
         self.vers = 0
         self.retval = None
         self.sc = ()
+        self.breakval = None
 
     def fork(self):
         s = State()
@@ -415,6 +416,7 @@ class State:
         s.vers = self.vers
         s.retval = self.retval
         s.sc = self.sc
+        s.breakval = self.breakval
         return s
 
 
@@ -1045,6 +1047,15 @@ class FnAnalysis:
         return []
 
     def e_Break(self, e, st):
+        if e.get("e") is not None:
+            # `break value`: the loop expression evaluates to it
+            outs = []
+            for s, v in self.eval(e["e"], st):
+                if s.ctrl is None:
+                    s.ctrl = "break"
+                    s.breakval = v
+                outs.append((s, ("unit",)))
+            return outs
         st.ctrl = "break"
         return [(st, ("unit",))]
 
@@ -1205,7 +1216,12 @@ class FnAnalysis:
                 if e["k"] == "Loop" and how != "break":
                     # `loop {}` only leaves through break/return: an iteration that ends normally goes round again
                     continue
-                outs.append((s2, ("unit",)))
+                bv = getattr(s2, "breakval", None)
+                if how == "break" and bv is not None:
+                    s2.breakval = None
+                    outs.append((s2, bv))
+                else:
+                    outs.append((s2, ("unit",)))
         self._check()
         return outs
 
@@ -1230,7 +1246,7 @@ class FnAnalysis:
         v = itv
         while isinstance(v, tuple) and v and v[0] == "mut":
             v = v[1]
-        if isinstance(v, tuple) and v and v[0] == "call" and v[1].endswith("::map") and len(v[2]) == 2 and isinstance(v[2][1], tuple) and v[2][1][0] == "clos":
+        if isinstance(v, tuple) and v and v[0] == "call" and v[1].endswith(("::map", "::filter_map")) and len(v[2]) == 2 and isinstance(v[2][1], tuple) and v[2][1][0] == "clos":
             node = getattr(self, "clos_nodes", {}).get(v[2][1][1])
             if node is not None and len(node["params"]) == 1:
                 inner = self.element_of(st, v[2][0], lid)
@@ -1244,7 +1260,14 @@ class FnAnalysis:
                 finally:
                     self.paths = saved_paths
                 if clean and len(outs) == 1:
-                    return outs[0][1]
+                    r_ = outs[0][1]
+                    if v[1].endswith("::filter_map"):
+                        # the element is the payload of the closure's Some(..) (None elements are skipped; Option modelled at payload level)
+                        if isinstance(r_, tuple) and r_ and r_[0] == "call" and r_[1] == "core::option::Option::Some" and len(r_[2]) == 1 and r_[3] is None:
+                            r_ = r_[2][0]
+                        elif isinstance(r_, tuple) and r_ and r_[0] == "call" and r_[1] == "core::option::Option::None":
+                            return ("elem", itv, lid)
+                    return r_
         if isinstance(v, tuple) and v and v[0] == "call" and v[1].endswith("::zip") and len(v[2]) == 2:
             return ("tup", (self.element_of(st, v[2][0], lid), self.element_of(st, v[2][1], lid)))
         if isinstance(v, tuple) and v and v[0] == "call" and v[1].endswith("::chain") and len(v[2]) == 2:
@@ -1350,7 +1373,7 @@ class FnAnalysis:
                 lid = fake["id"]
 
                 def pre(s0, itv=itv, lid=lid, fake=fake):
-                    self.bind(s0, fake["pat"], ("elem", itv, lid), fake["iter"])
+                    self.bind(s0, fake["pat"], self.element_of(s0, itv, lid), fake["iter"])
                 for s2, _ in self.loop_common(fake, s, pre, iter_term=itv):
                     outs.append((s2, ("call", "core::result::Result::Ok", (("unit",),), None) if fn0.endswith("try_for_each") else ("unit",)))
             return outs
